@@ -14,6 +14,53 @@ import sys
 PRIMS = ["add", "mul", "sub", "abs_", "neg", "equal_cast", "where3"]
 
 
+class _Skip(Exception):
+    pass
+
+
+def gen_history_shortcuts(rng: random.Random, n: int):
+    """Histories that also call `ndx.where` with scalar boolean conditions (data or placeholder): steps b:<0|1> | q:<name> |
+    gw:<c>,<x>,<y> besides the plain ones.  Cells are typed (int64 vectors / boolean scalars); `s` stays within a type."""
+    steps, kinds = [], []
+    names = 0
+    def cells(kind):
+        return [i for i, k in enumerate(kinds) if k == kind]
+    for k in range(n):
+        r = rng.random()
+        ints, bools = cells("i"), cells("b")
+        if not ints or r < 0.15:
+            if rng.random() < 0.6:
+                steps.append("d")
+            else:
+                steps.append(f"p:x{names}"); names += 1
+            kinds.append("i")
+        elif not bools or r < 0.3:
+            if rng.random() < 0.6:
+                steps.append(f"b:{rng.randrange(2)}")
+            else:
+                steps.append(f"q:c{names}"); names += 1
+            kinds.append("b")
+        elif r < 0.6 and len(ints) >= 1:
+            xi = rng.choice(ints)
+            yi = rng.choice([i for i in ints if i != xi] or ints)
+            steps.append(f"gw:{rng.choice(bools)},{xi},{yi}")
+            kinds.append("i")
+        elif r < 0.75:
+            op = rng.choice(["add", "mul", "sub", "abs_", "neg"])
+            ar = {"abs_": 1, "neg": 1}.get(op, 2)
+            steps.append(f"f:{op}:{','.join(str(rng.choice(ints)) for _ in range(ar))}")
+            kinds.append("i")
+        elif r < 0.87:
+            src = rng.randrange(len(kinds))
+            steps.append(f"c:{src}")
+            kinds.append(kinds[src])
+        else:
+            kind = rng.choice(["i", "b"])
+            pool = cells(kind)
+            steps.append(f"s:{rng.choice(pool)}:{rng.choice(pool)}")
+    return steps
+
+
 def gen_history(rng: random.Random, n: int):
     """Steps: d | p:<name> | f:<op>:<args> | c:<r> | s:<dst>:<src>  (cells are int64 vectors of length 3)."""
     steps = []
@@ -59,6 +106,18 @@ def run_impl(histories: list[list[str]]) -> list[str]:
                     cells.append(_CoreArray(np.array([k, 1, -2], dtype=np.int64)))
                 elif p[0] == "p":
                     cells.append(_CoreArray(spox.argument(spox.Tensor(np.int64, (3,)))))
+                elif p[0] == "b":
+                    cells.append(_CoreArray(np.array(bool(int(p[1])))))
+                elif p[0] == "q":
+                    cells.append(_CoreArray(spox.argument(spox.Tensor(np.bool_, ()))))
+                elif p[0] == "gw":
+                    from ndonnx._core._utils import from_corearray
+                    ci, xi, yi = (int(i) for i in p[1].split(","))
+                    xv, yv = cells[xi].to_numpy(), cells[yi].to_numpy()
+                    if xv is not None and yv is not None and np.array_equal(xv, yv):
+                        raise _Skip()       # the equal-branches fold is another mechanism (a recorded finding), not this shortcut
+                    r = ndx.where(from_corearray(cells[ci]), from_corearray(cells[xi]), from_corearray(cells[yi]))
+                    cells.append(r._core())
                 elif p[0] == "c":
                     cells.append(cells[int(p[1])].copy())
                 elif p[0] == "s":
@@ -90,6 +149,8 @@ def run_impl(histories: list[list[str]]) -> list[str]:
                     const = False
                 flags.append(v + ("c" if const else "n"))
             out.append("ok " + (",".join(flags) if flags else "-"))
+        except _Skip:
+            out.append("skip")
         except IndexError:
             out.append("err")
         except Exception as e:  # noqa: BLE001
